@@ -182,6 +182,8 @@ def soak(V, tier, seed):
                                               f"first difference (position, demanded, found) = {d}", "kind": "property",
                                       "replay_cmd": " ".join(args), "demanded": spec[:2000], "found": final[:2000]})
         r["coverage"]["runs"].append(run)
+        if r["failures"]:
+            break   # one report per run of the check
     return r
 
 
